@@ -28,11 +28,50 @@ func Mutate(rt *rapid.T, data []byte, fields []ref.Field, other []byte) ([]byte,
 			structural = append(structural, f)
 		}
 	}
-	op := rapid.IntRange(0, 9).Draw(rt, "mut-op")
+	op := rapid.IntRange(0, 11).Draw(rt, "mut-op")
 	if len(out) == 0 {
 		op = 9
 	}
 	switch {
+	case op >= 10 && len(structural) >= 2:
+		// Two fields at once, both set to values near the library's caps: a row count and a
+		// length (or offset, or key count) that are each acceptable but whose product is not.
+		i := rapid.IntRange(0, len(structural)-2).Draw(rt, "pair-first")
+		j := rapid.IntRange(i+1, min(len(structural)-1, i+1+rapid.IntRange(0, 6).Draw(rt, "pair-gap"))).Draw(rt, "pair-second")
+		big := []uint64{127, 128, 4096, 65535, 65536, 1<<18 - 1, 1 << 18, 1<<20 + 1, 1<<24 - 1, 1 << 24, 99_999_999, 100_000_000, 1<<30 - 1, 1 << 30}
+		res := out
+		desc := ""
+		delta := 0
+		for n, f := range []ref.Field{structural[i], structural[j]} {
+			off := f.Off + delta
+			isVar := f.Role == ref.RCount || f.Role == ref.RLength || (f.Role == ref.RInfo && f.Len != 4 && f.Len != 1)
+			nv := big[rapid.IntRange(0, len(big)-1).Draw(rt, "pair-val")]
+			var enc []byte
+			if isVar {
+				enc = binary.AppendUvarint(nil, nv)
+			} else {
+				var b [8]byte
+				binary.LittleEndian.PutUint64(b[:], nv)
+				enc = b[:f.Len]
+			}
+			next := append([]byte(nil), res[:off]...)
+			next = append(next, enc...)
+			next = append(next, res[off+f.Len:]...)
+			res = next
+			delta += len(enc) - f.Len
+			if n > 0 {
+				desc += " and "
+			}
+			desc += fmt.Sprintf("%s field at %d -> %d", f.Role, f.Off, nv)
+		}
+		if rapid.Bool().Draw(rt, "pair-truncate") {
+			// drop what follows the second field: the amplified allocation must not need the data
+			end := structural[j].Off + delta + structural[j].Len
+			if end > 0 && end <= len(res) {
+				res = res[:end]
+			}
+		}
+		return res, Mutation{Desc: "pair: " + desc, Role: structural[i].Role.String() + "+" + structural[j].Role.String(), Struct: true}
 	case op <= 4 && len(structural) > 0:
 		f := structural[rapid.IntRange(0, len(structural)-1).Draw(rt, "mut-field")]
 		var old uint64
